@@ -26,6 +26,45 @@ func (o Op) String() string { return fmt.Sprintf("%s(recv=v%d,arg=v%d,c=%d)", o.
 
 var mulConsts = []*big.Int{nil, big.NewInt(0), big.NewInt(1), big.NewInt(2), big.NewInt(3), new(big.Int).Sub(ref.N, big.NewInt(1))}
 
+const nBadEncodings = 6
+
+// badEncoding returns the c-th invalid encoding over F_q: decoding it must fail and leave the receiver untouched.
+func (m *Model) badEncoding(c int) []byte {
+	offX := uint64(0)
+
+	for x := uint64(0); x < m.Q; x++ {
+		on := false
+		for y := uint64(0); y < m.Q; y++ {
+			on = on || m.idx[x*m.Q+y] >= 0
+		}
+
+		if !on {
+			offX = x
+			break
+		}
+	}
+
+	g := m.EncUncompressed(1)
+
+	switch c {
+	case 0: // compressed, x in range but x^3+7 not a square
+		return append([]byte{2}, be32(new(big.Int).SetUint64(offX))...)
+	case 1: // compressed, x >= q (alias of a valid abscissa)
+		return append([]byte{3}, be32(new(big.Int).SetUint64(m.Pt[1][0]+m.Q))...)
+	case 2: // bad prefix
+		return append([]byte{5}, m.Enc(1)[1:]...)
+	case 3: // truncated
+		return m.Enc(1)[:32]
+	case 4: // uncompressed, off curve
+		b := append([]byte{}, g...)
+		b[64] ^= 1
+
+		return b
+	default: // non-zero single byte
+		return []byte{1}
+	}
+}
+
 // opsFor lists the operation instances for a pool of v variables.
 func opsFor(v int, withMul bool) []Op {
 	var ops []Op
@@ -33,6 +72,10 @@ func opsFor(v int, withMul bool) []Op {
 	for i := 0; i < v; i++ {
 		for _, k := range []string{"Double", "Negate", "Identity", "Add(nil)", "Subtract(nil)", "DecodeGenerator", "DecodeIdentity"} {
 			ops = append(ops, Op{Kind: k, I: i, J: i})
+		}
+
+		for c := 0; c < nBadEncodings; c++ {
+			ops = append(ops, Op{Kind: "Decode(invalid)", I: i, J: i, C: c})
 		}
 
 		if withMul {
@@ -96,6 +139,10 @@ func (m *Model) Apply(v int, st State, o Op) (next State, key, detail string) {
 		case "DecodeIdentity":
 			err = recv.Decode([]byte{0})
 			want[o.I] = 0
+		case "Decode(invalid)":
+			if derr := recv.Decode(m.badEncoding(o.C)); derr == nil {
+				err = fmt.Errorf("invalid encoding %x accepted", m.badEncoding(o.C))
+			}
 		case "Multiply":
 			k := mulConsts[o.C]
 
@@ -183,7 +230,7 @@ func (m *Model) Apply(v int, st State, o Op) (next State, key, detail string) {
 		}
 	}
 
-	if (o.Kind == "Add(nil)" || o.Kind == "Subtract(nil)") && next[o.I] != st[o.I] {
+	if (o.Kind == "Add(nil)" || o.Kind == "Subtract(nil)" || o.Kind == "Decode(invalid)") && next[o.I] != st[o.I] {
 		return next, o.Kind + "/receiver-changed", desc()
 	}
 
